@@ -21,7 +21,7 @@ def stub_number_formatting():
     """Environment stub (part of every engine-S claim): an f-string / format() of a *symbolic number* with an empty
     format spec yields the placeholder text '<n>' instead of realising the number digit by digit (CrossHair would
     otherwise enumerate concrete values for every log/error message func_adl formats).  Only message texts are
-    affected; str()/repr() are untouched."""
+    affected; str()/repr() are untouched.  Likewise an ast node formatted with an empty spec yields '<ast node>'."""
     from crosshair.libimpl import builtinslib
     from crosshair.core import realize
 
@@ -31,6 +31,7 @@ def stub_number_formatting():
         return realize(self).__format__(realize(fmt))
 
     builtinslib.SymbolicNumberAble.__format__ = _fmt
+    import ast as _ast
     from crosshair import opcode_intercept
     from crosshair.tracers import NoTracing
 
@@ -39,8 +40,13 @@ def stub_number_formatting():
     def _stash_format(self, fmt):
         with NoTracing():
             stub = type(fmt) is str and fmt == "" and isinstance(self.value, builtinslib.SymbolicNumberAble)
+            # an ast node formatted into a message: CrossHair would deep-realise every symbolic leaf below it
+            stub_ast = type(fmt) is str and fmt == "" and isinstance(self.value, _ast.AST)
         if stub:
             self.formatted = "<n>"
+            return ""
+        if stub_ast:
+            self.formatted = "<ast node>"
             return ""
         return orig(self, fmt)
 
